@@ -51,7 +51,7 @@ def serialize_leaf(base, v):
     if base == "Stamp":
         # the custom scalar has no representation for some raw values:
         # its serialiser hands back null for them
-        return None if v % 13 == 0 else "S:%d" % v
+        return None if v % 13 == 0 else "S:%r" % (v,)
     raise AssertionError(base)
 
 
